@@ -51,10 +51,36 @@ def gen_case(cid, rnd, n_dbs, length, crash):
     return {"id": cid, "steps": st, "crash": crash}
 
 
+def chain_case(cid, pattern, crash):
+    """structured histories: a database that was snapshotted once, then per letter of `pattern`
+    n = first write of a new key, s = snapshot, k = kill + restart, c = clean shutdown + restart"""
+    st = steps_prefix() + [{"c": "a", "line": "create-db da tok"}, {"c": "s_da", "line": "use-db da tok"},
+                           {"c": "s_da", "line": "set k0 v0"}, {"c": "a", "line": "snapshot false da"}, {"tick": 1}]
+    nk = 0
+    for ch in pattern:
+        if ch == "n":
+            nk += 1
+            st.append({"c": "s_da", "line": "set n%d v%d" % (nk, nk)})
+        elif ch == "s":
+            st += [{"c": "a", "line": "snapshot false da"}, {"tick": 1}]
+        else:
+            if ch == "c":
+                st.append({"shutdown": 1})
+            st += [{"restart": 1}, {"c": "a", "line": "auth admin adminpwd"}, {"c": "s_da", "line": "use-db da tok"}]
+    return {"id": cid, "steps": st, "crash": crash}
+
+
 def cases_for(tier, seed):
     rnd = random.Random(seed)
     cases = []
     n = 0
+    # every history of new-key / snapshot / kill / clean-restart steps up to a length
+    for length in range(1, 5 if tier == "quick" else 7):
+        for pat in itertools.product("nskc", repeat=length):
+            pat = "".join(pat)
+            if "n" not in pat or ("k" not in pat and "c" not in pat):
+                continue
+            cases.append(chain_case("c%s" % pat, pat, crash=False))
     for n_dbs in (1, 2, 3, 4):
         for i in range(25 if tier == "quick" else 300):
             cases.append(gen_case("h%d" % n, rnd, n_dbs, rnd.randint(3, 9 if tier == "quick" else 14), crash=(i % 3 == 0)))
